@@ -521,3 +521,187 @@ Proof.
   - destruct (cidx_next_spec st I) as [[_ ->] | (e & r & _ & _ & _ & ->)]; eexists; reflexivity.
   - destruct (cidx_next_back_spec st I) as [[_ ->] | (l & e & _ & _ & _ & ->)]; eexists; reflexivity.
 Qed.
+
+(* ------------------------------------------------------------------ as_str = the undecoded middle *)
+
+Section Final.
+  Variables St Item : Type.
+  Variable next next_back : St -> option (Item * St).
+  (** the state after a history (an exhausted iterator keeps its state) *)
+  Fixpoint final (h : list end_) (st : St) : St :=
+    match h with
+    | [] => st
+    | e :: h' =>
+      match (match e with Front => next st | Back => next_back st end) with
+      | None => final h' st
+      | Some (_, st') => final h' st'
+      end
+    end.
+End Final.
+
+(** what a history does to a deque: (taken from the front, what is left, taken from the
+    back), each in the original order *)
+Fixpoint deque_split {A} (h : list end_) (l : list A) : list A * list A * list A :=
+  match h with
+  | [] => ([], l, [])
+  | Front :: h' =>
+      match l with
+      | [] => deque_split h' l
+      | x :: r => let '(p, m, q) := deque_split h' r in (x :: p, m, q)
+      end
+  | Back :: h' =>
+      match pop_back l with
+      | None => deque_split h' l
+      | Some (x, r) => let '(p, m, q) := deque_split h' r in (p, m, q ++ [x])
+      end
+  end.
+
+(** C07: after any history the remaining string of [chars] is the part of the original
+    between the characters taken from the front and those taken from the back, and
+    [as_str()] points exactly there *)
+Theorem chars_as_str_middle_gen : forall h st, chars_inv st ->
+  let st' := final _ _ chars_next' chars_next_back' h st in
+  exists pre post,
+    c_this st = pre ++ c_this st' ++ post /\
+    chars_as_str st' = (c_base st + zlen pre, zlen (c_this st')) /\
+    utf8 pre = true /\ utf8 (c_this st') = true /\ utf8 post = true /\
+    deque_split h (chars (c_this st)) = (chars pre, chars (c_this st'), chars post).
+Proof.
+  induction h as [|e h IH]; intros st I.
+  - cbn [final deque_split]. exists [], []. rewrite app_nil_r. cbn [app]. unfold chars_as_str.
+    rewrite zlen_nil, Z.add_0_r. repeat split; trivial.
+  - destruct e.
+    + destruct (chars_next_spec st I) as [[E N] | (c & r & E & W & U & N)].
+      * assert (Hn : chars_next' st = None) by (unfold chars_next'; now rewrite N).
+        cbn [final deque_split]. rewrite Hn. specialize (IH st I). cbn zeta in IH |- *.
+        rewrite E in IH |- *. change (chars []) with (@nil Z) in *. exact IH.
+      * set (st1 := {| c_this := r; c_base := c_base st + zlen c |}) in *.
+        assert (Hn : chars_next' st = Some (dec_char c, st1)) by (unfold chars_next'; now rewrite N).
+        cbn [final deque_split]. rewrite Hn.
+        assert (I1 : chars_inv st1) by exact U.
+        specialize (IH st1 I1). cbn zeta in IH |- *.
+        destruct IH as (pre & post & E1 & A1 & Upre & Uthis & Upost & D1).
+        cbn [c_this c_base st1] in E1, A1, D1.
+        exists (c ++ pre), post. rewrite E.
+        split; [rewrite E1 at 1; now rewrite <- app_assoc|].
+        split; [rewrite A1, zlen_app; f_equal; lia|].
+        split; [apply utf8_app; [now apply utf8_wf | exact Upre]|].
+        split; [exact Uthis|]. split; [exact Upost|].
+        rewrite (chars_app_wf c r W U), D1. now rewrite (chars_app_wf c pre W Upre).
+    + destruct (chars_next_back_spec st I) as [[E N] | (l & c & E & U & W & N)].
+      * assert (Hn : chars_next_back' st = None) by (unfold chars_next_back'; now rewrite N).
+        cbn [final deque_split]. rewrite Hn. specialize (IH st I). cbn zeta in IH |- *.
+        rewrite E in IH |- *. change (chars []) with (@nil Z) in *. exact IH.
+      * set (st1 := {| c_this := l; c_base := c_base st + 0 |}) in *.
+        assert (Hn : chars_next_back' st = Some (dec_char c, st1)) by (unfold chars_next_back'; now rewrite N).
+        cbn [final deque_split]. rewrite Hn.
+        assert (I1 : chars_inv st1) by exact U.
+        specialize (IH st1 I1). cbn zeta in IH |- *.
+        destruct IH as (pre & post & E1 & A1 & Upre & Uthis & Upost & D1).
+        cbn [c_this c_base st1] in E1, A1, D1.
+        exists pre, (post ++ c). rewrite E.
+        split; [rewrite E1 at 1; now rewrite <- !app_assoc|].
+        split; [rewrite A1; f_equal; lia|].
+        split; [exact Upre|]. split; [exact Uthis|].
+        split; [apply utf8_app; [exact Upost | now apply utf8_wf]|].
+        rewrite (chars_app_wf_r l c U W), pop_back_app, D1. now rewrite (chars_app_wf_r post c Upost W).
+Qed.
+
+Theorem chars_as_str_middle s h : utf8 s = true ->
+  let st' := final _ _ chars_next' chars_next_back' h (chars_init s) in
+  exists pre post,
+    s = pre ++ c_this st' ++ post /\
+    chars_as_str st' = (zlen pre, zlen (c_this st')) /\
+    utf8 pre = true /\ utf8 (c_this st') = true /\ utf8 post = true /\
+    deque_split h (chars s) = (chars pre, chars (c_this st'), chars post).
+Proof.
+  intros U. destruct (chars_as_str_middle_gen h (chars_init s) U) as (pre & post & H).
+  exists pre, post. cbn [chars_init c_this c_base] in H. now rewrite Z.add_0_l in H.
+Qed.
+
+(** char_indices moves [this]/[base] exactly like chars (the offset is extra bookkeeping) *)
+Definition forget (st : cidx_st) : chars_st := {| c_this := i_this st; c_base := i_base st |}.
+
+Lemma cidx_final_forget : forall h st, cidx_inv st ->
+  forget (final _ _ cidx_next' cidx_next_back' h st) =
+  final _ _ chars_next' chars_next_back' h (forget st).
+Proof.
+  induction h as [|e h IH]; intros st I; [reflexivity|].
+  assert (Ic : chars_inv (forget st)) by exact I.
+  destruct e; cbn [final].
+  - unfold cidx_next' at 1, chars_next' at 1.
+    destruct (cidx_next_spec st I) as [[E ->] | (c & r & E & W & U & ->)];
+      destruct (chars_next_spec (forget st) Ic) as [[E' ->] | (c' & r' & E' & W' & U' & ->)];
+      cbn [unres forget c_this] in *.
+    + now apply IH.
+    + rewrite E in E'. destruct c'; [discriminate W' | discriminate E'].
+    + rewrite E' in E. destruct c; [discriminate W | discriminate E].
+    + assert (c' = c /\ r' = r) as [-> ->].
+      { rewrite E in E'. pose proof (utf8_app _ _ (utf8_wf _ W) U) as V.
+        assert (S1 : segs (c ++ r) = consopt c (segs r)) by now apply segs_step.
+        assert (S2 : segs (c' ++ r') = consopt c' (segs r')) by now apply segs_step.
+        rewrite <- E' in S2. rewrite S1 in S2. unfold utf8 in U, U'.
+        destruct (segs r) as [er|] eqn:Er; [|discriminate]. destruct (segs r') as [er'|] eqn:Er'; [|discriminate].
+        cbn [consopt] in S2. inversion S2; subst.
+        split; [reflexivity|]. now apply app_inv_head in E'. }
+      exact (IH {| i_this := r; i_base := i_base st + zlen c; i_off := i_off st + zlen c |} U).
+  - unfold cidx_next_back' at 1, chars_next_back' at 1.
+    destruct (cidx_next_back_spec st I) as [[E ->] | (l & c & E & U & W & ->)];
+      destruct (chars_next_back_spec (forget st) Ic) as [[E' ->] | (l' & c' & E' & U' & W' & ->)];
+      cbn [unres forget c_this] in *.
+    + now apply IH.
+    + rewrite E in E'. destruct l'; [destruct c'; [discriminate W' | discriminate E'] | discriminate E'].
+    + rewrite E' in E. destruct l; [destruct c; [discriminate W | discriminate E] | discriminate E].
+    + assert (l' = l /\ c' = c) as [-> ->].
+      { rewrite E in E'.
+        apply utf8_iff in U as (el & -> & Fl). apply utf8_iff in U' as (el' & -> & Fl').
+        assert (S1 : segs (concat (el ++ [c])) = Some (el ++ [c]))
+          by (apply segs_complete, Forall_app; split; [exact Fl | now constructor]).
+        assert (S2 : segs (concat (el' ++ [c'])) = Some (el' ++ [c']))
+          by (apply segs_complete, Forall_app; split; [exact Fl' | now constructor]).
+        rewrite !concat_app in S1, S2. cbn [concat] in S1, S2. rewrite !app_nil_r in S1, S2.
+        rewrite E' in S1. rewrite S1 in S2. inversion S2 as [S3].
+        apply app_inj_tail in S3 as [-> ->]. split; reflexivity. }
+      exact (IH {| i_this := l; i_base := i_base st + 0; i_off := i_off st |} U).
+Qed.
+
+Theorem char_indices_as_str_middle s h : utf8 s = true ->
+  let st' := final _ _ cidx_next' cidx_next_back' h (cidx_init s) in
+  exists pre post,
+    s = pre ++ i_this st' ++ post /\
+    cidx_as_str st' = (zlen pre, zlen (i_this st')) /\
+    utf8 pre = true /\ utf8 (i_this st') = true /\ utf8 post = true /\
+    deque_split h (chars s) = (chars pre, chars (i_this st'), chars post).
+Proof.
+  intros U. pose proof (cidx_final_forget h (cidx_init s) U) as F.
+  pose proof (chars_as_str_middle s h U) as H. cbn zeta in H |- *.
+  change (forget (cidx_init s)) with (chars_init s) in F. rewrite <- F in H. exact H.
+Qed.
+
+(* ------------------------------------------------------------------ statements over scalar values *)
+
+Lemma scalar_range c : is_scalar c -> 0 <= c < 1114112.
+Proof. unfold is_scalar. lia. Qed.
+Theorem encode_scalar c : is_scalar c -> encode_m c = encode c.
+Proof. intros S. apply encode_eq_std. now apply scalar_range. Qed.
+Theorem decode_encode_scalar c : is_scalar c -> string_to_usv_m (encode_m c) = c.
+Proof. intros S. apply decode_encode. now apply scalar_range. Qed.
+
+(** every scalar value has a well-formed encoding that decodes back to it *)
+Theorem encode_wf c : is_scalar c -> wf (encode c) /\ dec_char (encode c) = c.
+Proof.
+  unfold is_scalar, wf, encode. intros S.
+  destruct (Z.ltb_spec c 128); [cbn [wf_char dec_char]; unf; split; lia|].
+  destruct (Z.ltb_spec c 2048); [cbn [wf_char dec_char]; unfold dec2; unf; split; lia|].
+  destruct (Z.ltb_spec c 65536); [cbn [wf_char dec_char]; unfold dec3; unf; split; lia|].
+  cbn [wf_char dec_char]; unfold dec4; unf; split; lia.
+Qed.
+
+Example chars_example :
+  (utf8 [97; 195; 169; 233; 148; 136; 240; 159; 167; 160] = true) /\
+  (chars [97; 195; 169; 233; 148; 136; 240; 159; 167; 160] = [97; 233; 38152; 129504]) /\
+  (char_indices [97; 195; 169; 233; 148; 136; 240; 159; 167; 160] = [(0, 97); (1, 233); (3, 38152); (6, 129504)]) /\
+  (run _ _ chars_next' chars_next_back' [Back; Front; Front; Back; Back]
+     (chars_init [97; 195; 169; 233; 148; 136; 240; 159; 167; 160])
+   = [Some 129504; Some 97; Some 233; Some 38152; None]).
+Proof. repeat split. Qed.
